@@ -1,4 +1,5 @@
 import PGA.Proofs.RingTop
+import PGA.Proofs.RingReadSafe
 import PGA.Model.RingRead
 import PGA.Gen.RingGrammar
 /-!
@@ -110,15 +111,11 @@ theorem C09_read_no_hang (s : List Char) : read s ≠ .hang := by
   | abort a => exact absurd hp (C09_never_stuck _ _ C09_tab_wellranked_enhanced s a)
   | accepted ast fin => simp only; split <;> simp
 
-/-- the full T4: no text ends in an exception that is neither a RING error nor NotImplementedError, nor hangs -/
-def C09_read_total_full : Prop := ∀ s : List Char, read s ≠ .internal ∧ read s ≠ .hang
-
-/-- **T4b (partial)** The parser contributes no internal outcome: if `Read` ends in an internal
-exception then the text was *accepted by the parser* and the reader stopped on a tree shape it does
-not expect (`shape`: a failed assertion / index / attribute error).  Every other reader failure is a
-`RINGReaderError` or `NotImplementedError` by construction of the outcome model.  What is missing for
-`C09_read_total_full` is that no tree the generated grammar can produce has such a shape. -/
-theorem C09_read_internal_partial (s : List Char) (h : read s = .internal) :
+/-- **T4b** The parser contributes no internal outcome: if `Read` ends in an internal exception then the
+text was *accepted by the parser* and the reader stopped on a tree shape it does not expect (`shape`: a
+failed assertion / index / attribute error).  Every other reader failure is a `RINGReaderError` or
+`NotImplementedError` by construction of the outcome model. -/
+theorem C09_read_internal_only_shape (s : List Char) (h : read s = .internal) :
     ∃ ast fin, parse enhanced s = .accepted ast fin ∧ readAst ast = .error .shape := by
   unfold read at h
   cases hp : parse enhanced s with
@@ -131,6 +128,33 @@ theorem C09_read_internal_partial (s : List Char) (h : read s = .internal) :
     · cases h
     · cases h
     · rename_i hr; exact ⟨ast, fin, rfl, hr⟩
+
+/-- **T1e** `enhanced_grammar` uses no `ZeroOrMore` and no empty literal, so the child kinds of every node
+the parser builds are one of finitely many sequences read off the rule body (`kinds`). -/
+theorem C09_tab_plain_enhanced : allPlain enhanced = true := by decide +kernel
+
+/-- **T4c** (tree shapes, all texts) Every tree the parser builds from the generated grammar conforms to it:
+each node's children have one of the kind sequences of its rule body, every string leaf is non-empty,
+and the root is a `RINGInput` node. -/
+theorem C09_tree_conforms (s : List Char) (ast : Ast) (fin : St) (h : parse enhanced s = .accepted ast fin) :
+    Conf enhanced ast ∧ kindOf ast = .node rRINGInput :=
+  parse_conf enhanced C09_tab_plain_enhanced s ast fin h
+
+/-- the full T4: no text ends in an exception that is neither a RING error nor NotImplementedError, nor hangs -/
+def C09_read_total_full : Prop := ∀ s : List Char, read s ≠ .internal ∧ read s ≠ .hang
+
+/-- **T4** (all texts) `Read` ends in a query, a RINGSyntaxError, a RINGReaderError or a
+NotImplementedError: never in another exception, never in a hang.  The reader part rests on the
+child-kind tables of the 47 rules the readers visit (`rk_*`, `one_*` in `PGA/Proofs/RingReadSafe.lean`),
+each re-decided by the kernel over the regenerated grammar: for every tree shape the grammar can
+produce the readers' assertions, indexings and attribute accesses succeed. -/
+theorem C09_read_total : C09_read_total_full := by
+  intro s
+  refine ⟨?_, C09_read_no_hang s⟩
+  intro h
+  obtain ⟨ast, fin, hp, hr⟩ := C09_read_internal_only_shape s h
+  obtain ⟨hc, hk⟩ := C09_tree_conforms s ast fin hp
+  exact readAst_safe ast hc hk hr
 
 /-! ## Non-vacuity on a hand-written table (the generated tables are covered by T1c) -/
 
